@@ -460,6 +460,33 @@ def r7_payload_range(ctx, rid='C12.R7'):
     r.floor(len(seen), 10, 'loader / reassembly sites fed from the frame buffer')
 
 
+def r10_delegation(ctx, rid='C12.R10'):
+    r = ctx.rule(rid, 'TABLE', 'delegating accessors agree across variants: every arm of a Continuable accessor calls the same-named method of its payload (HEADERS and PUSH_PROMISE blocks are continued on the same stream id)')
+    F = ctx.facts
+    H2 = ('proto::', 'frame::', 'codec::', 'hpack::')
+    n = 0
+    for fname in ('codec::framed_read::Continuable::stream_id', 'codec::framed_read::Continuable::is_over_size', 'codec::framed_read::Continuable::load_hpack'):
+        f = r.fn(fname)
+        if not f:
+            continue
+        own = fname.rsplit('::', 1)[-1]
+        sws = [(bi, sw) for bi, sw in core.all_switches(F, f).items() if sw is not None and sw.kind == 'variant' and strip(sw.subject)[0] == 'arg']
+        r.check(len(sws) >= 1, 'delegate|%s|dispatch' % own, f.file, 'Continuable::%s dispatches on the variant' % own)
+        if not sws:
+            continue
+        bi, sw = sws[0]
+        for s2, lab in sw.labels.items():
+            if not lab:
+                continue
+            reach = f.reachable([s2])
+            calls = [t['fn'] for b, t in f.calls(lambda t: t['fn'].startswith(H2)) if b in reach and not any(b in f.reachable([o]) for o in sw.labels if o != s2)]
+            n += 1
+            ok = len(calls) == 1 and calls[0].rsplit('::', 1)[-1] == own
+            r.check(ok, 'delegate|%s|%s' % (own, '+'.join(sorted(lab))), f.file, 'Continuable::%s, arm %s calls %s%s' % (own, sorted(lab), [c.split('::')[-2] + '::' + c.split('::')[-1] for c in calls],
+                    '' if ok else ' — not the same-named accessor: e.g. a PUSH_PROMISE block compared by its promised id is rejected as soon as it needs a CONTINUATION'))
+    r.floor(n, 6, 'delegating arms')
+
+
 def r6_final_flush(ctx, rid='C12.R6'):
     r = ctx.rule(rid, 'GUARD', 'close: the final flush is marked done only after flush() returned Ready(Ok); the transport is shut down only behind it')
     F = ctx.facts
@@ -491,6 +518,7 @@ def r6_final_flush(ctx, rid='C12.R6'):
 
 
 def run(ctx):
+    r10_delegation(ctx)
     r6_final_flush(ctx)
     r7_payload_range(ctx)
     r1_tables(ctx)
